@@ -294,6 +294,31 @@ func ruleHeaderTypestate(c *Ctx, rule string) {
 			}
 		})
 		c.check(rule, fk+":sets-headersSent", set, "the branch that attaches the headers also stores headersSent = true (otherwise headers repeat on every message)", p.ipos(hs[0]))
+		// once the flag says "sent", the envelope carrying the headers is written on every path (an early return in
+		// between — e.g. a marshal error — leaves the flag set and the headers are never sent at all)
+		ws := p.transportOps(env.Fn, "Write", false)
+		allInstrs(env.Fn, func(i ssa.Instruction) {
+			st, ok := i.(*ssa.Store)
+			if !ok || p.locPath(st.Addr) != flag {
+				return
+			}
+			if k, isC := st.Val.(*ssa.Const); !isC || k.Value.ExactString() != "true" {
+				return
+			}
+			bad := p.mustPass(i, func(j ssa.Instruction) bool {
+				for _, w := range ws {
+					if j == ssa.Instruction(w) {
+						return true
+					}
+				}
+				return false
+			}, false)
+			where := ""
+			if bad != nil {
+				where = p.ipos(bad)
+			}
+			c.check(rule, fk+":flag-then-write", bad == nil, "after headersSent = true every path writes the envelope that carries the headers; the path to "+where+" returns without writing it", p.ipos(i), where)
+		})
 	}
 	sh := p.MustFn("server.serverStream.setHeader")
 	env := p.envelopeIn("server.serverStream.setHeader")
